@@ -218,6 +218,11 @@ class NativeStub:
     def __repr__(self):
         return f"<stub {self.name}>"
 
+    def __call__(self, *a, **k):        # so that the builtin callable() sees a callable; the interpreter dispatches on the type before this
+        if self.wants_ex:
+            raise Unsupported("direct call of a stub that needs the interpreter")
+        return self.f(*a, **k)
+
 
 class CutSeq:
     """Abstract finite sequence for a loop that is cut by an invariant: length n (z3 Int or int), element
